@@ -95,8 +95,14 @@ def same_vector_nan(a, b):
     return bool(np.abs(a[fa] - b[fb]).max() <= REL * sc)
 
 
+def _with_expr(c):
+    c["expr_param"] = True  # a parameter defined by an expression on a free parameter: part of the caller's parameters
+    return c
+
+
 case_strategy = st.one_of(
     st.tuples(st.just("table"), schemes.schemes(allow_full=True, max_datasets=3)),
+    st.tuples(st.just("table"), schemes.schemes(allow_full=False, max_datasets=2).map(_with_expr)),
     st.tuples(st.just("kinetic"), kinetic.kinetic_cases(max_datasets=2)),
 )
 
